@@ -61,11 +61,9 @@ pub fn node_pos<X: Kind>(e: &Env, a: &B32, b: &B32) -> B32 {
 }
 /// reference: sorted node = H(min || max), order = lexicographic order of the bytes (the model's `Ord` of `BytesN`)
 pub fn node_sorted<X: Kind>(e: &Env, a: &B32, b: &B32) -> B32 {
-    if *b < *a {
-        node_pos::<X>(e, b, a)
-    } else {
-        node_pos::<X>(e, a, b)
-    }
+    // (one call site on the ordered pair)
+    let (lo, hi) = if *b < *a { (b, a) } else { (a, b) };
+    node_pos::<X>(e, lo, hi)
 }
 pub fn arb32() -> B32 {
     <B32 as Arb>::arb()
@@ -381,12 +379,15 @@ macro_rules! merkle_family {
             }
 
             // ------------------------------------------------------------ corrupted honest proofs
-            /// drop the last element / append any element / any other root: rejected, for ANY leaf values
+            /// hashed leaves: drop the last element / append any element / any other root: rejected.
+            /// (With FREE leaf values the oracle admits a hash cycle `l0 = H(l0 || l1)`, `l1 = n23`, which makes
+            /// root = n01 and lets the truncated proof pass: not a property of the code but of leaf values that
+            /// are chosen as a function of their own hash; hashed leaves exclude it.)
             #[kani::proof]
             #[kani::unwind(14)]
             pub fn corrupt_len_root_sorted() {
                 let e = Env::default();
-                let t = build4::<X>(&e, free_leaves(), true);
+                let t = build4::<X>(&e, hashed_leaves::<X>(&e), true);
                 let i: u32 = kani::any();
                 kani::assume(i < 4);
                 let kind: u8 = kani::any();
@@ -415,7 +416,7 @@ macro_rules! merkle_family {
             #[kani::unwind(14)]
             pub fn corrupt_len_root_indexed() {
                 let e = Env::default();
-                let t = build4::<X>(&e, free_leaves(), false);
+                let t = build4::<X>(&e, hashed_leaves::<X>(&e), false);
                 let i: u32 = kani::any();
                 kani::assume(i < 4);
                 let kind: u8 = kani::any();
@@ -500,13 +501,28 @@ macro_rules! merkle_family {
                 let r = Verifier::<H>::verify_with_index(&e, proof.clone(), root.clone(), leaf.clone(), idx);
                 prop!(n < 32, concat!("C17.", $tag, ".verify_with_index.proof_shorter_than_32"));
                 prop!((idx as u64) < (1u64 << n), concat!("C17.", $tag, ".verify_with_index.index_below_two_pow_len"));
+                witness!(n == 0, "len0");
+                witness!(n == CAP as u32 && idx == (1u32 << n) - 1, "len_cap_last_index");
+                witness!(r && n == 3, "verifies_len3");
+                kani::assert(!world().overflow, "MODEL-OVERFLOW: flag set");
+            }
+            /// positional form, symbolic proof length 0..=CAP: result = (positional fold == root)
+            #[kani::proof]
+            #[kani::unwind(14)]
+            pub fn verify_with_index_is_fold() {
+                let e = Env::default();
+                let proof = arb_proof(CAP as u32);
+                let n = proof.len();
+                let idx: u32 = kani::any();
+                let root = arb32();
+                let leaf = arb32();
+                let r = Verifier::<H>::verify_with_index(&e, proof.clone(), root.clone(), leaf.clone(), idx);
                 prop!(
                     r == (ref_fold::<X>(&e, &proof, &leaf, false, idx) == root),
                     concat!("C17.", $tag, ".verify_with_index.result_is_positional_fold_equals_root")
                 );
-                witness!(n == 0, "len0");
-                witness!(n == CAP as u32 && idx == (1u32 << n) - 1, "len_cap_last_index");
-                witness!(r && n == 3, "verifies_len3");
+                witness!(r && n == CAP as u32, "verifies_len_cap");
+                witness!(!r && n == 1, "fails_len1");
                 kani::assert(!world().overflow, "MODEL-OVERFLOW: flag set");
             }
             /// sorted form, symbolic proof length 0..=CAP: result = (sorted fold == root), never traps
@@ -847,41 +863,3 @@ macro_rules! merkle_family {
 
 merkle_family!(keccak, KK, "keccak");
 merkle_family!(sha, KS, "sha256");
-
-pub mod exp {
-    use super::*;
-    type X = KK;
-    type H = Keccak256;
-    #[kani::proof]
-    #[kani::unwind(14)]
-    pub fn honest4_sorted_loop() {
-        let e = Env::default();
-        let t = build4::<X>(&e, free_leaves(), true);
-        let mut i = 0u32;
-        while i < 4 {
-            let proof = Vec::from_array(&e, [t.sibling(i), t.uncle(i)]);
-            let r = Verifier::<H>::verify(&e, proof, t.root.clone(), t.leaf(i));
-            prop!(r, "C17.exp.verify.honest_proof_accepted");
-            i += 1;
-        }
-        kani::assert(!world().overflow, "MODEL-OVERFLOW: flag set");
-    }
-    #[kani::proof]
-    #[kani::unwind(14)]
-    pub fn sound4_sorted_distinct() {
-        let e = Env::default();
-        let l = free_leaves();
-        kani::assume(l[0] != l[1] && l[0] != l[2] && l[0] != l[3] && l[1] != l[2] && l[1] != l[3] && l[2] != l[3]);
-        let t = build4::<X>(&e, l, true);
-        kani::assume(world().n_hashes == 3);
-        let x = arb32();
-        let p0 = arb32();
-        let p1 = arb32();
-        let proof = Vec::from_array(&e, [p0.clone(), p1.clone()]);
-        let r = Verifier::<H>::verify(&e, proof, t.root.clone(), x.clone());
-        if r {
-            prop!(t.is_honest_triple(&x, &p0, &p1), "C17.exp.verify.full_depth_proof_is_the_honest_one");
-        }
-        kani::assert(!world().overflow, "MODEL-OVERFLOW: flag set");
-    }
-}
